@@ -9,8 +9,14 @@
    * every public operation is a *program*: the sequence of private-key-store / database steps the
      code performs (DESIGN Appendix D).  Step(o) runs the whole program, Fail(o, n) runs the steps
      before the n-th fault point and stops (the step that raises has no effect);
-   * keys are slots <<identity, n>>, certificates <<key, 1>> (self-signed, made by new_key) and
-     <<key, 2>> (imported).  The executor maps slots to real (random) key names.  The slot a new key
+   * keys are slots <<identity, n>>, certificates <<key, 1>> (self-signed, made by new_key),
+     <<key, 2>> (imported, issued for this key: its name extends the key's name) and - when CertN = 3 -
+     <<key, 3>> (imported, CROSS-FILED: import_cert files a certificate under the key it is told to, whatever
+     the certificate's name looks like; this one's name extends the name of ANOTHER key - one that is listed,
+     one that was deleted, or one that never existed - as tests/misc/light_versec_test.py files the certificate
+     /la issued for /la/author/1 under /la's key).  Nothing in the model depends on what a certificate is
+     called: the key a signer belongs to is the key that was SELECTED, never one worked out from a name.
+     The executor maps slots to real (random) key names.  The slot a new key
      goes into is a parameter of NewKey / TouchIdentity (o.k): the model checker always takes the lowest
      free one (FreeSlot), a recorded trace may name any free one;
 
@@ -37,6 +43,9 @@
                   keychain); only when this instance has no transaction open (it would block); this
                   instance's signer cache is not reset by it and the keys go to `xgone`, not `gone`;
      GetSigner.t = "obj": the Identity / Key / Certificate object is passed instead of its name;
+     ImportCert.c = the certificate slot filled (NoCert = <<key, 2>>, the form used before CertN existed);
+     ImportCert.t (cross-filed slot only) = "xkey": named as a certificate of another key the executor has
+                  generated (listed, deleted meanwhile, or orphaned); "xnone": of a key that never existed;
      Fail(o, n, m): m = "call" the private-key-store / database call raises; m = "io" (tpm steps only) the
                   call is made and the file operation inside TpmFile (open / os.remove) raises.
 
@@ -49,7 +58,11 @@
        the case after its INSERT went through and its commit failed), leaves the invariants intact, and for
        deletes leaves nothing of what was beneath the target before the first attempt, including
        private keys.  A retried touch_identity may return an identity without keys.
-     - get_signer({'cert': c}) is only quantified for c present in the store or c of a deleted key.
+     - get_signer({'cert': c}) is only quantified for c present in the store or c of a deleted key, and only
+       for certificates named after the key they are filed under (OwnNamed): for a cross-filed certificate the
+       statement does not settle whether "the selected key" is the owner or the key its name extends (the
+       code takes the latter), so it is never asked for by certificate - only through its identity / key,
+       where the selected key is beyond doubt.
      - two live instances are not in the statement's quantifier: clause "never a signer for a deleted key"
        is about deletes made through this instance (`gone`).  After a delete by the second instance
        (`xgone`) the model gives the answer of the code: by identity / key the rows are consulted (KeyError),
@@ -60,16 +73,20 @@
        ImportCert / SetDefCert steps and at the end of a history, for as long as their key exists. *)
 EXTENDS Naturals, Sequences, FiniteSets, TLC
 
-CONSTANTS Ids, MaxKeys, Depth, MaxLevel, MaxFaults, DevScope, DevCacheLoc, DevDelKey,
+CONSTANTS Ids, MaxKeys, CertN, Depth, MaxLevel, MaxFaults, DevScope, DevCacheLoc, DevDelKey,
           DevKeyId, DevDelCertView, DevCertObj, DevEmptyObj
+ASSUME CertN \in 2..3
 
 KeyN == 1..MaxKeys
 Keys == Ids \X KeyN
-Certs == Keys \X (1..2)
+Certs == Keys \X (1..CertN)
 NoId == "none"
 NoKey == <<"none", 0>>
 NoCert == <<NoKey, 0>>
 Types == {"ec", "rsa"}
+\* certificates whose name extends the name of the key they are filed under (slot 3 is cross-filed)
+OwnNamed(c) == c[2] <= 2
+OwnCerts == {c \in Certs : OwnNamed(c)}
 
 VARIABLE st
 (* st = [cur, disk : DB, tpm : SUBSET Keys, cache : SUBSET [loc, key], open : BOOLEAN,
@@ -155,6 +172,8 @@ Op0(op) == [op |-> op, i |-> NoId, k |-> NoKey, c |-> NoCert, t |-> "none", by |
 OpI(op, i) == [Op0(op) EXCEPT !.i = i]
 OpK(op, k) == [Op0(op) EXCEPT !.k = k]
 OpC(op, c) == [Op0(op) EXCEPT !.c = c]
+\* the certificate slot an import_cert call fills
+ImpSlot(o) == IF o.c = NoCert THEN <<o.k, 2>> ELSE o.c
 
 NewKeyProg(k, t) == << [SK("gen", k) EXCEPT !.t = t], Stp("tpmGet", TRUE), SK("insKey", k),
                        SC("insCert", <<k, 1>>), Commit >>
@@ -215,8 +234,8 @@ Plan(o, S) ==
               ELSE [prog |-> NewKeyProg(o.k, o.t), res |-> NoRes("ok")]
     [] o.op = "ImportCert" ->
          \* (the INSERT is attempted - a fault point - and refused by the UNIQUE index)
-         IF <<o.k, 2>> \in db.certs THEN [prog |-> << Stp("insRefused", TRUE) >>, res |-> NoRes("integrity")]
-         ELSE [prog |-> << SC("insCert", <<o.k, 2>>), Commit >>, res |-> NoRes("ok")]
+         IF ImpSlot(o) \in db.certs THEN [prog |-> << Stp("insRefused", TRUE) >>, res |-> NoRes("integrity")]
+         ELSE [prog |-> << SC("insCert", ImpSlot(o)), Commit >>, res |-> NoRes("ok")]
     [] o.op = "SetDefId" -> [prog |-> << SI("updId", o.i), Commit >>, res |-> NoRes("ok")]
     [] o.op = "SetDefKey" -> [prog |-> << SK("updKey", o.k), Commit >>, res |-> NoRes("ok")]
     [] o.op = "SetDefCert" -> [prog |-> << SC("updCert", o.c), Commit >>, res |-> NoRes("ok")]
@@ -266,10 +285,10 @@ Part(o, S, n) ==
 SignBase == {[Op0("GetSigner") EXCEPT !.by = "default", !.loc = "cert"]}
      \cup {[Op0("GetSigner") EXCEPT !.by = "identity", !.i = i, !.loc = "cert"] : i \in Ids}
      \cup {[Op0("GetSigner") EXCEPT !.by = "key", !.k = k, !.loc = l] : k \in Keys, l \in {"cert", "custom"}}
-     \cup {[Op0("GetSigner") EXCEPT !.by = "cert", !.c = c, !.loc = l] : c \in Certs, l \in {"cert", "custom"}}
+     \cup {[Op0("GetSigner") EXCEPT !.by = "cert", !.c = c, !.loc = l] : c \in OwnCerts, l \in {"cert", "custom"}}
      \cup {[Op0("GetSigner") EXCEPT !.by = "identity", !.i = i, !.loc = "cert", !.t = "obj"] : i \in Ids}
      \cup {[Op0("GetSigner") EXCEPT !.by = "key", !.k = k, !.loc = "cert", !.t = "obj"] : k \in Keys}
-     \cup {[Op0("GetSigner") EXCEPT !.by = "cert", !.c = c, !.loc = "cert", !.t = "obj"] : c \in Certs}
+     \cup {[Op0("GetSigner") EXCEPT !.by = "cert", !.c = c, !.loc = "cert", !.t = "obj"] : c \in OwnCerts}
 AllOps ==
        {OpI("NewIdentity", i) : i \in Ids}
   \cup {OpI("TouchIdentity", i) : i \in Ids}
@@ -277,6 +296,7 @@ AllOps ==
   \cup {[OpI("NewKey", k[1]) EXCEPT !.t = t, !.k = k, !.loc = l] : k \in Keys, t \in Types, l \in {"none", "view"}}
   \cup {[OpI("NewKey", k[1]) EXCEPT !.t = "ec", !.k = k, !.by = "keyid"] : k \in Keys}
   \cup {OpK("ImportCert", k) : k \in Keys}
+  \cup {[OpK("ImportCert", k) EXCEPT !.c = <<k, 3>>, !.t = t] : k \in Keys, t \in IF CertN >= 3 THEN {"xkey", "xnone"} ELSE {}}
   \cup {OpI("SetDefId", i) : i \in Ids}
   \cup {OpK("SetDefKey", k) : k \in Keys}
   \cup {OpC("SetDefCert", c) : c \in Certs}
@@ -297,7 +317,7 @@ Enabled(o, S) ==
          /\ o.i \in db.ids
          /\ \/ FreeSlots(S, o.i) # {} /\ o.k = FreeSlot(S, o.i)
             \/ o.by = "keyid" /\ (o.k \in db.keys \/ OrphanFile(S, o.k))
-    [] o.op = "ImportCert" -> o.k \in db.keys /\ (<<o.k, 2>> \notin db.certs \/ <<o.k, 2>> \notin S.disk.certs)
+    [] o.op = "ImportCert" -> o.k \in db.keys /\ (ImpSlot(o) \notin db.certs \/ ImpSlot(o) \notin S.disk.certs)
     [] o.op = "SetDefId" -> o.i \in db.ids
     [] o.op = "SetDefKey" -> o.k \in db.keys
     [] o.op = "SetDefCert" -> o.c \in db.certs
@@ -442,7 +462,7 @@ RetryOk(o, S, n) ==
   /\ out \in {"ok", "keyerr"} \/ (o.op = "ImportCert" /\ out = "integrity")
   /\ (o.op \in {"DelKey", "DelIdentity"} => Cascaded(o, Beneath(o, S), [T EXCEPT !.disk = T.cur]))
   /\ (o.op = "DelCert" => o.c \notin T.cur.certs)
-  /\ (o.op = "ImportCert" => <<o.k, 2>> \in T.cur.certs)
+  /\ (o.op = "ImportCert" => ImpSlot(o) \in T.cur.certs)
   /\ (o.op \in {"NewIdentity", "TouchIdentity"} => o.i \in T.cur.ids)
   \* new_key with an explicit key_id names the same key again: the retry completes it, key pair intact
   /\ (o.op = "NewKey" => o.k \in T.cur.keys /\ o.k \in T.tpm /\ o.k \notin T.mis)
@@ -468,10 +488,13 @@ W_PendingTxn == ~(st.cur # st.disk)
 W_GoneAndCache == ~(st.gone # {} /\ st.cache # {})
 W_OrphanFile == ~(\E k \in st.tpm : k \notin st.cur.keys /\ k \notin st.disk.keys)
 W_CustomLocTwoKeys == ~(\E e1, e2 \in st.cache : e1.loc = e2.loc /\ e1.key # e2.key)
+\* a cross-filed certificate is the default certificate of its key and a signer is to be had through the key
+W_CrossFiledDefault == ~(\E c \in st.cur.dC : ~OwnNamed(c) /\ c[1] \in st.tpm /\ st.open)
 \* all witnesses in one single-worker run: INIT WitnessInit, CONSTRAINT WitnessMark, POSTCONDITION WitnessPost
-WitnessInit == Init /\ \A i \in 11..16 : TLCSet(i, FALSE)
+WitnessInit == Init /\ \A i \in 11..17 : TLCSet(i, FALSE)
 WitnessMark == /\ (W_TwoKeysTwoCerts \/ TLCSet(11, TRUE)) /\ (W_NoDefaultButPopulated \/ TLCSet(12, TRUE))
                /\ (W_PendingTxn \/ TLCSet(13, TRUE)) /\ (W_GoneAndCache \/ TLCSet(14, TRUE))
                /\ (W_OrphanFile \/ TLCSet(15, TRUE)) /\ (W_CustomLocTwoKeys \/ TLCSet(16, TRUE))
-WitnessPost == \A i \in 11..16 : TLCGet(i) \/ PrintT(<<"UNREACHED", i>>)
+               /\ (W_CrossFiledDefault \/ CertN < 3 \/ TLCSet(17, TRUE))
+WitnessPost == \A i \in 11..16 \cup (IF CertN >= 3 THEN {17} ELSE {}) : TLCGet(i) \/ PrintT(<<"UNREACHED", i>>)
 =============================================================================
